@@ -626,3 +626,25 @@ Example C18_dispatch_inhabited :
   run B"lc.nothing" [] = VErr B"NOOP" /\ run B"lc.history" [] = VBad.
 Proof. exact dispatch_inhabited. Qed.
 Print Assumptions C18_dispatch_inhabited.
+
+(** ** End to end: state machine + explicit chain *)
+Theorem C18_freshness_chain : forall zone HASH ARG ANS (O : oracle zone HASH ARG ANS) mono,
+  hash_injective O -> forall w0 pre quiet_ops local d,
+  Forall (time_ok mono) (pre ++ quiet_ops) -> Forall keeps_tz quiet_ops ->
+  NANOS_PER_SEC <= elapsed quiet_ops ->
+  let s := exec O mono (init_state w0) (pre ++ quiet_ops) in
+  snd (step O mono s (Convert local d)) =
+    Some (o_answer O (match first_some [route O (st_world s) (shape_of (env_of (w_tz (st_world s))));
+                                        system_route O (st_world s)] with
+                      | Some z => z | None => o_utc O end) local d).
+Proof. exact freshness_chain. Qed.
+Print Assumptions C18_freshness_chain.
+
+Theorem C18_new_thread_chain : forall zone HASH ARG ANS (O : oracle zone HASH ARG ANS) mono (s : @state zone HASH) local d,
+  st_cur s = None ->
+  snd (step O mono s (Convert local d)) =
+    Some (o_answer O (match first_some [route O (st_world s) (shape_of (env_of (w_tz (st_world s))));
+                                        system_route O (st_world s)] with
+                      | Some z => z | None => o_utc O end) local d).
+Proof. exact new_thread_chain. Qed.
+Print Assumptions C18_new_thread_chain.
